@@ -18,8 +18,17 @@ pub fn gen(a: &Args) -> i32 {
         let mut r = Rng::for_case(a.seed, case);
         let index = r.chance(1, 2) as u8;
         let with_compaction = r.chance(1, 4);
-        writeln!(out, "case {case} {index} 0 {}", with_compaction as u8).unwrap();
+        // with the version index: half of the cases back-fill older timestamps (sets only). A history is then asked for
+        // only while nothing of the case has been flushed, or right after a flush (everything in the index): the order
+        // in which unflushed versions are listed is the known finding `history-commit-order-until-flush`
+        let ooo = index == 1 && !with_compaction && r.chance(1, 2);
+        let mut dirty = false;
+        let mut flushed_any = false;
+        writeln!(out, "case {case} {index} 0 {} {}", with_compaction as u8, ooo as u8).unwrap();
         st.bump(if index == 1 { "backend_bptree" } else { "backend_lsm" });
+        if ooo {
+            st.bump("out_of_order_timestamps");
+        }
         let nk = r.range(1, 3);
         let nops = r.range(6, if a.thorough { 40 } else { 20 });
         let mut ts = 10u64;
@@ -29,7 +38,31 @@ pub fn gen(a: &Args) -> i32 {
         for _ in 0..nops {
             let x = r.below(100);
             let k = r.below(nk);
-            if x < 45 {
+            if x < 45 && ooo {
+                dirty = true;
+                vctr += 1;
+                let mut t = 0;
+                if max_ts > 12 && r.chance(1, 2) {
+                    // an older timestamp not used yet
+                    for _ in 0..20 {
+                        let c = r.range(5, max_ts - 1);
+                        if !all_ts.contains(&c) {
+                            t = c;
+                            break;
+                        }
+                    }
+                }
+                if t == 0 {
+                    ts = max_ts + r.range(1, 9);
+                    max_ts = ts;
+                    t = ts;
+                } else {
+                    st.bump("put_backfilled");
+                }
+                all_ts.push(t);
+                writeln!(out, "put {k} {t} {vctr}").unwrap();
+                st.bump("put");
+            } else if x < 45 {
                 ts += r.range(1, 9);
                 max_ts = ts;
                 all_ts.push(ts);
@@ -60,6 +93,11 @@ pub fn gen(a: &Args) -> i32 {
                 let t = r.range(5, max_ts + 5);
                 writeln!(out, "getat {k} {t}").unwrap();
                 st.bump("getat");
+            } else if x < 85 && ooo && dirty && flushed_any {
+                // versions of the case sit in the index and in a memtable: no history asked (see above)
+                let t = r.range(5, max_ts + 5);
+                writeln!(out, "getat {k} {t}").unwrap();
+                st.bump("getat");
             } else if x < 85 {
                 let lo = r.below(nk);
                 let hi = r.range(lo, nk);
@@ -76,6 +114,11 @@ pub fn gen(a: &Args) -> i32 {
                 let limit = if dir == "fwd" && r.chance(1, 4) { r.range(1, 4).to_string() } else { "-".to_string() };
                 writeln!(out, "hist {lo} {hi} {tombs} {ra} {rb} {limit} {dir}").unwrap();
                 st.bump(&format!("hist_{dir}{}{}", if ra != "-" { "_range" } else { "" }, if limit != "-" { "_limit" } else { "" }));
+            } else if x < 92 && ooo {
+                writeln!(out, "flush").unwrap();
+                st.bump("flush");
+                dirty = false;
+                flushed_any = true;
             } else if x < 92 {
                 if r.chance(1, 3) {
                     // a crash inside the flush: the store continues from the image taken at that file-operation boundary
@@ -89,6 +132,10 @@ pub fn gen(a: &Args) -> i32 {
             } else if x < 96 {
                 writeln!(out, "reopen").unwrap();
                 st.bump("reopen");
+                if dirty {
+                    flushed_any = true; // a clean close flushes everything
+                }
+                dirty = false;
             } else if with_compaction {
                 writeln!(out, "compact").unwrap();
                 st.bump("compact");
@@ -104,6 +151,14 @@ pub fn gen(a: &Args) -> i32 {
             st.bump("ranged_sweep_after_compaction");
         }
         // final complete listings
+        if ooo && dirty && flushed_any {
+            writeln!(out, "flush").unwrap();
+        }
+        if ooo {
+            for t in all_ts.iter().take(12) {
+                writeln!(out, "getat {} {t}", r.below(nk)).unwrap();
+            }
+        }
         writeln!(out, "hist 0 {nk} 1 - - - fwd").unwrap();
         writeln!(out, "hist 0 {nk} 0 - - - bwd").unwrap();
     }
